@@ -308,6 +308,8 @@ def monitor(traces, workdir):
 
 def check_C04(report: common.Report):
     common.import_lib()
+    from .. import design  # pylint: disable=import-outside-toplevel
+    design.check(report, 'C04')
     thorough = report.tier == 'thorough'
     seed = common.seed()
     if thorough:
